@@ -406,65 +406,198 @@ theorem C17_monotone_acc (shape shape' : List ℕ) (useBias : Bool) (m m' : QRec
   simp only [makeAccumulator, hm.nf, hm.np, hm'.nf, hm'.np, Wider, fracBits, tQuantizedBits] at *
   refine ⟨by simp; omega, by simp; omega, by simpa using h3⟩
 
-/-! ## merge layers -/
+/-! ## merge layers
 
-/-- Maximum / Minimum / Average / Concatenate of identical input types report that type -/
-theorem C17_merge_max_same (q : QRec) (rest : List QRec) (h : ∀ r ∈ rest, sameType q r = true) :
-    mergeMax (q :: rest) = some q := by
-  simp only [mergeMax]
-  rw [if_pos]
-  exact List.all_eq_true.2 h
+After "fix: merge layer types keep the finest fraction and grow with the number of inputs" the
+result type is computed from the widest integer part and the finest fractional part over the
+inputs; `Add` grows by `max(⌈log2 n⌉, 1)` integer bits. -/
 
-/-- Add of two inputs of the same fixed-point format holds every sum (PARTIAL: same format) -/
-theorem C17_merge_add_same_partial (q : QRec) (hq : WFfx q) (hi : -1 ≤ q.intBits) (u v : ℚ)
-    (hu : ValFixed q.bits q.intBits q.signed u) (hv : ValFixed q.bits q.intBits q.signed v) :
-    let o := mergeAdd [q, q]
-    ValFixed o.bits o.intBits o.signed (u + v) := by
+/-- fold step of `_fixed_point_envelope` on a fixed-point (non-float, non-po2) input -/
+private theorem envelope_fold (l : List QRec) (hl : ∀ q ∈ l, q.isFloat = false ∧ q.isPo2 = false)
+    (mi mf : Option ℤ) (sg : Bool) (fb : ℤ) :
+    ∃ mi' mf' sg',
+      l.foldl (fun (acc : Option ℤ × Option ℤ × Bool × Bool × ℤ) q =>
+        if q.isFloat then (acc.1, acc.2.1, acc.2.2.1 || q.signed, true, imax acc.2.2.2.2 q.bits)
+        else (optMax acc.1 (asQbits q).intBits, optMax acc.2.1 (fracOf (asQbits q)),
+              acc.2.2.1 || q.signed, acc.2.2.2.1, acc.2.2.2.2)) (mi, mf, sg, false, fb)
+        = (mi', mf', sg', false, fb) ∧
+      (∀ x, mi = some x → ∃ y, mi' = some y ∧ x ≤ y) ∧
+      (∀ x, mf = some x → ∃ y, mf' = some y ∧ x ≤ y) ∧
+      (sg = true → sg' = true) ∧
+      (∀ q ∈ l, (∃ y, mi' = some y ∧ q.intBits ≤ y) ∧ (∃ y, mf' = some y ∧ fracOf q ≤ y) ∧
+                (q.signed = true → sg' = true)) ∧
+      (l = [] → mi' = mi ∧ mf' = mf ∧ sg' = sg) := by
+  induction l generalizing mi mf sg with
+  | nil => exact ⟨mi, mf, sg, rfl, fun x h => ⟨x, h, le_rfl⟩, fun x h => ⟨x, h, le_rfl⟩, id,
+      by simp, fun _ => ⟨rfl, rfl, rfl⟩⟩
+  | cons q t ih =>
+    obtain ⟨hqf, hqp⟩ := hl q (by simp)
+    have hq : asQbits q = q := by simp [asQbits, hqp]
+    obtain ⟨mi', mf', sg', he, h1, h2, h3, h4, _⟩ :=
+      ih (fun r hr => hl r (by simp [hr])) (optMax mi q.intBits) (optMax mf (fracOf q)) (sg || q.signed)
+    refine ⟨mi', mf', sg', ?_, ?_, ?_, ?_, ?_, by simp⟩
+    · simp only [List.foldl_cons, hqf, Bool.false_eq_true, if_false, hq]
+      exact he
+    · intro x hx
+      obtain ⟨y, hy, hxy⟩ := h1 (imax x q.intBits) (by simp [optMax, hx])
+      exact ⟨y, hy, by rw [imax_eq_max] at hxy; exact le_trans (le_max_left _ _) hxy⟩
+    · intro x hx
+      obtain ⟨y, hy, hxy⟩ := h2 (imax x (fracOf q)) (by simp [optMax, hx])
+      exact ⟨y, hy, by rw [imax_eq_max] at hxy; exact le_trans (le_max_left _ _) hxy⟩
+    · intro hs; exact h3 (by simp [hs])
+    · intro r hr
+      rcases List.mem_cons.1 hr with rfl | hr
+      · refine ⟨?_, ?_, fun hs => h3 (by simp [hs])⟩
+        · rcases hmi : mi with _ | x
+          · obtain ⟨y, hy, hxy⟩ := h1 r.intBits (by simp [optMax, hmi])
+            exact ⟨y, hy, hxy⟩
+          · obtain ⟨y, hy, hxy⟩ := h1 (imax x r.intBits) (by simp [optMax, hmi])
+            exact ⟨y, hy, by rw [imax_eq_max] at hxy; exact le_trans (le_max_right _ _) hxy⟩
+        · rcases hmf : mf with _ | x
+          · obtain ⟨y, hy, hxy⟩ := h2 (fracOf r) (by simp [optMax, hmf])
+            exact ⟨y, hy, hxy⟩
+          · obtain ⟨y, hy, hxy⟩ := h2 (imax x (fracOf r)) (by simp [optMax, hmf])
+            exact ⟨y, hy, by rw [imax_eq_max] at hxy; exact le_trans (le_max_right _ _) hxy⟩
+      · exact h4 r hr
+
+/-- the envelope of a non-empty list of fixed-point inputs: widest integer part `I`, finest
+    fraction `Fr`, signed iff some input is -/
+private theorem envelope_spec (qs : List QRec) (hne : qs ≠ [])
+    (hl : ∀ q ∈ qs, q.isFloat = false ∧ q.isPo2 = false) :
+    ∃ I Fr sg, mergeEnvelope qs = (some I, some Fr, sg, false, 0) ∧
+      ∀ q ∈ qs, q.intBits ≤ I ∧ fracOf q ≤ Fr ∧ (q.signed = true → sg = true) := by
+  obtain ⟨mi', mf', sg', he, _, _, _, h4, _⟩ := envelope_fold qs hl none none false 0
+  obtain ⟨q0, hq0⟩ := List.exists_mem_of_ne_nil qs hne
+  obtain ⟨⟨I, hI, _⟩, ⟨Fr, hF, _⟩, _⟩ := h4 q0 hq0
+  refine ⟨I, Fr, sg', ?_, ?_⟩
+  · unfold mergeEnvelope; rw [← hI, ← hF]; exact he
+  · intro q hq
+    obtain ⟨⟨y, hy, h1⟩, ⟨z, hz, h2⟩, h3⟩ := h4 q hq
+    rw [hI] at hy; rw [hF] at hz
+    cases hy; cases hz
+    exact ⟨h1, h2, h3⟩
+
+/-- a value of a fixed-point input is a multiple of the envelope's lsb inside the envelope's range -/
+private theorem val_in_envelope {q : QRec} (hq : 0 ≤ magBits q.bits q.signed) {I Fr : ℤ} {sg : Bool}
+    (h1 : q.intBits ≤ I) (h2 : fracOf q ≤ Fr) (h3 : q.signed = true → sg = true) {v : ℚ}
+    (hv : ValFixed q.bits q.intBits q.signed v) :
+    IsMul (-Fr) v ∧ loVal I sg ≤ v ∧ v < pow2 I := by
+  obtain ⟨hm, hlo, hhi⟩ := (valFixed_iff hq v).1 hv
+  have e : fixedLsb q.bits q.intBits q.signed = - fracOf q := by simp only [fixedLsb, fracOf]; ring
+  rw [e] at hm
+  refine ⟨isMul_of_le (by omega) hm, ?_, lt_of_lt_of_le hhi (pow2_le_pow2 h1)⟩
+  have hp := pow2_le_pow2 h1
+  have hpi := pow2_pos q.intBits
+  unfold loVal at hlo ⊢
+  cases hs : q.signed
+  · simp only [hs, Bool.false_eq_true, if_false] at hlo
+    have := pow2_pos I; split <;> linarith
+  · simp only [hs, if_true] at hlo
+    rw [h3 hs]; simp only [if_true]; linarith
+
+/-- Add of ANY number of fixed-point inputs of ANY formats holds every sum of one value per input -/
+theorem C17_merge_add (qv : List (QRec × ℚ)) (hne : qv ≠ [])
+    (hq : ∀ p ∈ qv, WFfx p.1 ∧ ValFixed p.1.bits p.1.intBits p.1.signed p.2) :
+    let o := mergeAdd (qv.map (·.1))
+    ValFixed o.bits o.intBits o.signed (qv.map (·.2)).sum := by
   intro o
-  have ho : o = { tQuantizedBits with
-      bits := q.bits + 1
-      intBits := q.intBits + 1
-      signed := q.signed } := by
-    have hb : -1 ≤ q.bits := by
-      have := hq.mag; simp only [magBits] at this; cases q.signed <;> simp [b2i] at this <;> omega
-    simp [o, mergeAdd, mergeStats, hq.nf, asQbits, hq.np, imax_eq_max]
-    constructor <;> omega
+  have hne' : qv.map (·.1) ≠ [] := by simpa using hne
+  obtain ⟨I, Fr, sg, he, hall⟩ := envelope_spec (qv.map (·.1)) hne' (by
+    intro q hq'
+    obtain ⟨p, hp, rfl⟩ := List.mem_map.1 hq'
+    exact ⟨(hq p hp).1.nf, (hq p hp).1.np⟩)
+  set n := (qv.map (·.1)).length with hn
+  have hnpos : n ≠ 0 := by simpa [hn] using hne
+  set grow : ℤ := imax (clog2 (if n = 0 then 1 else n) : ℤ) 1 with hg
+  have ho : o = { tQuantizedBits with intBits := I + grow, signed := sg,
+                                      bits := I + grow + Fr + b2i sg } := by
+    simp only [o, mergeAdd, he, Bool.false_eq_true, if_false, Option.getD_some]
+    rfl
+  have hgrow0 : 0 ≤ grow := by rw [hg, imax_eq_max]; exact le_trans zero_le_one (le_max_right _ _)
+  have hcnt : ((qv.map (·.2)).length : ℤ) ≤ tp grow := by
+    have h1 : n ≤ 2 ^ clog2 n := le_two_pow_clog2 n
+    have h2 : (clog2 n : ℤ) ≤ grow := by rw [hg, if_neg hnpos, imax_eq_max]; exact le_max_left _ _
+    have h3 : tp (clog2 n : ℤ) ≤ tp grow := tp_mono h2
+    have h4 : (n : ℤ) ≤ tp (clog2 n : ℤ) := by
+      unfold tp; simp only [Int.toNat_natCast]; exact_mod_cast h1
+    have : (qv.map (·.2)).length = n := by simp [hn]
+    rw [this]; omega
+  -- every value lies in the envelope
+  have hvals : ∀ v ∈ qv.map (·.2), IsMul (-Fr) v ∧ loVal I sg ≤ v ∧ v < pow2 I := by
+    intro v hv
+    obtain ⟨p, hp, rfl⟩ := List.mem_map.1 hv
+    obtain ⟨h1, h2, h3⟩ := hall p.1 (List.mem_map.2 ⟨p, hp, rfl⟩)
+    exact val_in_envelope (hq p hp).1.mag h1 h2 h3 (hq p hp).2
+  -- magnitude bits of the output are non-negative
+  obtain ⟨p0, hp0⟩ := List.exists_mem_of_ne_nil qv hne
+  obtain ⟨h01, h02, _⟩ := hall p0.1 (List.mem_map.2 ⟨p0, hp0, rfl⟩)
+  have hmag0 := (hq p0 hp0).1.mag
   rw [ho]; simp only
-  have hmq := hq.mag
-  have hmag : 0 ≤ magBits (q.bits + 1) q.signed := by simp only [magBits] at hmq ⊢; omega
+  have hmag : 0 ≤ magBits (I + grow + Fr + b2i sg) sg := by
+    simp only [magBits, fracOf] at hmag0 h02 ⊢; omega
   rw [valFixed_iff hmag]
-  have hu' := (valFixed_iff hq.mag u).1 hu
-  have hv' := (valFixed_iff hq.mag v).1 hv
-  have hlsb : fixedLsb (q.bits + 1) (q.intBits + 1) q.signed = fixedLsb q.bits q.intBits q.signed := by
+  have hlsb : fixedLsb (I + grow + Fr + b2i sg) (I + grow) sg = -Fr := by
     simp only [fixedLsb]; ring
-  have := add_in_range (sa := q.signed) (sb := q.signed) hu' ⟨hv'.1, hv'.2.1, hv'.2.2.le⟩
-  rw [hlsb]
-  simpa using this
+  refine ⟨by rw [hlsb]; exact isMul_list_sum (fun v hv => (hvals v hv).1), ?_⟩
+  have := sum_in_grown_range (i := I) (l := grow) (s := sg) hgrow0 (qv.map (·.2))
+    (fun v hv => (hvals v hv).2) hcnt
+  rw [add_comm grow I] at this
+  exact this
 
-/-- COUNTEREXAMPLE (known finding C17-merge-mixed-format): merge layers size the result from
-    (max bits, max int_bits) and so drop fractional bits when the input formats differ:
-    `Add[(8,0,signed), (8,7,signed)]` is reported as `(9, 8, signed)` — no fractional bit —
-    although `2^-7 + 0` is a sum of its inputs; `Maximum` of the same inputs reports `(8,7)`. -/
-theorem C17_merge_mixed_format_counterexample :
+/-- Maximum / Minimum / Average / Concatenate: the result type holds every value of every input,
+    for inputs of ANY fixed-point formats -/
+theorem C17_merge_max_holds_inputs (qv : List (QRec × ℚ))
+    (hq : ∀ p ∈ qv, WFfx p.1 ∧ ValFixed p.1.bits p.1.intBits p.1.signed p.2) (o : QRec)
+    (ho : mergeMax (qv.map (·.1)) = some o) :
+    ∀ p ∈ qv, ValFixed o.bits o.intBits o.signed p.2 := by
+  intro p hp
+  rcases hqv : qv with _ | ⟨p0, rest⟩
+  · rw [hqv] at hp; cases hp
+  · rw [hqv] at ho hp hq
+    simp only [List.map_cons, mergeMax] at ho
+    split at ho
+    · -- identical types: the shared type itself
+      rename_i hsame
+      simp only [Option.some.injEq] at ho
+      subst ho
+      rcases List.mem_cons.1 hp with rfl | hp'
+      · exact (hq _ (by simp)).2
+      · have := List.all_eq_true.1 hsame p.1 (List.mem_map.2 ⟨p, hp', rfl⟩)
+        simp only [sameType, Bool.and_eq_true, decide_eq_true_eq] at this
+        obtain ⟨⟨⟨_, hb⟩, hi⟩, hs⟩ := this
+        have hv := (hq p (by simp [hp'])).2
+        rw [← hb, ← hi, ← hs] at hv
+        exact hv
+    · have hne' : (p0 :: rest).map (·.1) ≠ [] := by simp
+      obtain ⟨I, Fr, sg, he, hall⟩ := envelope_spec ((p0 :: rest).map (·.1)) hne' (by
+        intro q hq'
+        obtain ⟨r, hr, rfl⟩ := List.mem_map.1 hq'
+        exact ⟨(hq r hr).1.nf, (hq r hr).1.np⟩)
+      simp only [List.map_cons] at he
+      rw [he] at ho
+      simp only [Bool.false_eq_true, if_false, Option.getD_some, Option.some.injEq] at ho
+      subst ho
+      simp only
+      obtain ⟨h1, h2, h3⟩ := hall p.1 (List.mem_map.2 ⟨p, hp, rfl⟩)
+      have hv := val_in_envelope (hq p hp).1.mag h1 h2 h3 (hq p hp).2
+      have hmag0 := (hq p hp).1.mag
+      have hmag : 0 ≤ magBits (I + Fr + b2i sg) sg := by
+        simp only [magBits, fracOf] at hmag0 h2 ⊢; omega
+      rw [valFixed_iff hmag]
+      have hlsb : fixedLsb (I + Fr + b2i sg) I sg = -Fr := by simp only [fixedLsb]; ring
+      rw [hlsb]; exact hv
+
+/-- regression witness of the repaired defects: `Add[(8,0,signed), (8,7,signed)]` is now
+    `(16, 8, signed)` and holds `2^-7`; `Maximum` of the same inputs is `(15, 7, signed)`;
+    three inputs of `quantized_bits(5,0,1)` give `(7, 2)`, which holds `-3`. -/
+theorem C17_merge_fixed_witness :
     let a : QRec := { tQuantizedBits with bits := 8, intBits := 0, signed := true }
     let b : QRec := { tQuantizedBits with bits := 8, intBits := 7, signed := true }
-    ValFixed 8 0 true (1 / 128) ∧ ValFixed 8 7 true 0 ∧
-    mergeAdd [a, b] = { tQuantizedBits with bits := 9, intBits := 8, signed := true } ∧
-    ¬ ValFixed 9 8 true (1 / 128 + 0) ∧
-    mergeMax [a, b] = some { tQuantizedBits with bits := 8, intBits := 7, signed := true } ∧
-    ¬ ValFixed 8 7 true (1 / 128) := by
-  refine ⟨⟨1, by decide, by decide, by simp [fixedLsb, b2i, pow2]⟩,
-    valFixed_zero, by decide, ?_, by decide, ?_⟩
-  · rintro ⟨k, _, _, h⟩
-    simp [fixedLsb, b2i, pow2] at h
-    have : (1 : ℚ) = 128 * k := by linarith
-    have : (1 : ℤ) = 128 * k := by exact_mod_cast this
-    omega
-  · rintro ⟨k, _, _, h⟩
-    simp [fixedLsb, b2i, pow2] at h
-    have : (1 : ℚ) = 128 * k := by linarith
-    have : (1 : ℤ) = 128 * k := by exact_mod_cast this
-    omega
+    let c : QRec := { tQuantizedBits with bits := 5, intBits := 0, signed := true }
+    mergeAdd [a, b] = { tQuantizedBits with bits := 16, intBits := 8, signed := true } ∧
+    mergeMax [a, b] = some { tQuantizedBits with bits := 15, intBits := 7, signed := true } ∧
+    mergeAdd [c, c, c] = { tQuantizedBits with bits := 7, intBits := 2, signed := true } := by
+  refine ⟨by decide, by decide, by decide⟩
 
 /-! ## non-vacuity -/
 
